@@ -32,9 +32,28 @@ ArgList(n, a, pat) ==
 CallsOf(k) == UNION { {<<k, "BracketStartToken">> \o ArgList(n, a, pat) \o <<"BracketFinishToken">> :
                           n \in 0..(IF Len(a) > 1 /\ MaxArgs > 3 THEN 3 ELSE MaxArgs), pat \in {"uni", "mfirst", "msecond"}} : a \in ArgKinds }
 
+\* (c) bracket groups: an operand, a bracketed group, two groups joined by an operator or by a separator inside one pair of brackets -
+\* two levels deep, and wrapped once more - as a whole formula, as the right operand of a product, and as the argument list of a call.
+\* Which pair of brackets closes which, and what a pair encloses, decides whether the text is a formula of the grammar at all
+\* ( ((1),(2)) is an argument list only for functions that take bracketed lists ) - and, for the accepted ones, what they mean.
+LPt == "BracketStartToken"  RPt == "BracketFinishToken"
+G0 == {<<"LiteralToken">>, <<"CellIdentifierToken">>}
+Join(A) == {<<LPt>> \o a \o <<RPt>> : a \in A}
+           \cup {<<LPt>> \o a \o <<o>> \o b \o <<RPt>> : a \in A, b \in A, o \in {"PlusOperatorToken", "SeparatorToken"}}
+G1 == G0 \cup Join(G0)
+G2 == G1 \cup Join(G1)
+Groups == G2 \cup {<<LPt>> \o a \o <<RPt>> : a \in G2}
+GroupContexts == {"bare", "product", "SumKeywordToken", "LeftKeywordToken", "RoundKeywordToken", "MaxKeywordToken", "IfKeywordToken"}
+InContext(ctx, g) == IF ctx = "bare" THEN g
+                     ELSE IF ctx = "product" THEN <<"LiteralToken", "MultiplicationOperatorToken">> \o g
+                     ELSE <<ctx>> \o g
 \* shards are the initial states (processed by different TLC workers); the cases of a shard are its successors
-Shards == IF Mode = "mut" THEN {<<s, p>> : s \in Seeds, p \in 0..12} ELSE {<<k, 0>> : k \in Keywords}
-CasesOf(sh) == IF Mode = "mut" THEN (IF sh[2] <= Len(sh[1]) THEN MutantsAt(sh[1], sh[2]) ELSE {}) ELSE CallsOf(sh[1])
+Shards == IF Mode = "mut" THEN {<<s, p>> : s \in Seeds, p \in 0..12}
+          ELSE IF Mode = "groups" THEN {<<ctx, i>> : ctx \in (IF MaxArgs > 1 THEN GroupContexts ELSE {"bare", "product", "SumKeywordToken", "LeftKeywordToken"}), i \in 0..3}
+          ELSE {<<k, 0>> : k \in Keywords}
+CasesOf(sh) == IF Mode = "mut" THEN (IF sh[2] <= Len(sh[1]) THEN MutantsAt(sh[1], sh[2]) ELSE {})
+               ELSE IF Mode = "groups" THEN {InContext(sh[1], g) : g \in {x \in Groups : (Len(x) \div 2) % 4 = sh[2]}}
+               ELSE CallsOf(sh[1])
 Nil == [acc |-> FALSE, raw |-> "nil"]
 
 Init == /\ \E sh \in Shards : toks = <<"shard", sh>>
@@ -42,7 +61,8 @@ Init == /\ \E sh \in Shards : toks = <<"shard", sh>>
 Next == /\ res = Nil /\ toks[1] = "shard"
         /\ \E c \in CasesOf(toks[2]) :
               /\ toks' = <<E>> \o c
-              /\ res' = [acc |-> Accept(toks'), raw |-> Raw(toks')]
+              \* (the code-shaped interpretation Raw is exponential in the bracket depth, like the code: the groups carry the CFG verdict only)
+              /\ res' = LET a == Accept(toks') IN [acc |-> a, raw |-> IF Mode = "groups" THEN (IF a THEN "whole" ELSE "exc") ELSE Raw(toks')]
               /\ PrintT(ToJson([t |-> c, acc |-> res'.acc, raw |-> res'.raw]))
 InvWholeImpliesCFG == res.raw = "whole" => res.acc
 =============================================================================
